@@ -345,10 +345,19 @@ class Schema(dict, metaclass=LogicalMeta):
 
         if field.dependants:
             # need to update the dependant properties
-            for dep in field.dependants:
-                dep_field = self.__parser__.get_field(dep)
-                if dep_field and dep_field.property:
-                    self.__coerce_property__(dep_field, context=context)
+            self.__coerce_dependants__(field, context=context)
+
+    def __coerce_dependants__(self, field: ParserField, context: RuntimeContext, seen: set = None):
+        if seen is None:
+            seen = {field.name}
+        for dep in field.dependants:
+            dep_field = self.__parser__.get_field(dep)
+            if dep_field and dep_field.property and dep_field.name not in seen:
+                seen.add(dep_field.name)
+                self.__coerce_property__(dep_field, context=context)
+                if dep_field.dependants:
+                    # the properties that depend on this property
+                    self.__coerce_dependants__(dep_field, context=context, seen=seen)
 
     def __setitem__(self, alias: str, value):
         if self.__options__.immutable:
